@@ -330,9 +330,9 @@ attached to the Earth-fixed frame**: in the orientation graph regenerated from o
 reachable from ITRF through links whose conversion carries no rotation rate are the rotating ones;
 the list `NONROT` used by the harness is the complement. -/
 theorem nonrotating_frames :
-    ∀ i, i < Generated.orientNames.length →
+    ∀ i, i < Generated.covOrientNames.length →
       (Generated.claimedNonRotating.contains i ↔
-        ¬ (closure Generated.orientLinks Generated.orientNames.length [Generated.itrfIndex]).contains i) := by
+        ¬ (closure Generated.covOrientLinks Generated.covOrientNames.length [Generated.itrfIndex]).contains i) := by
   decide +kernel
 
 /-! ## Non-vacuity: a concrete environment meeting every hypothesis -/
